@@ -17,6 +17,7 @@ import (
 	"io"
 	"log"
 	"net/http"
+	"net/url"
 	"regexp"
 	"sort"
 	"strconv"
@@ -155,6 +156,8 @@ func (e *vsEnv) setup(personality int) {
 		}
 		return c, nil
 	}}
+	// the optional link to the analysis front end: absent, ordinary, or a base that is no valid URL by itself
+	e.app.ViewURLBase = []string{"", "https://perf.example/search?q=upload:", "https://perf.example/100%/search?q=upload:"}[e.T.Intn(3, "view-url-base")]
 	mux := http.NewServeMux()
 	e.app.RegisterOnMux(mux)
 	e.tr = &simTransport{r: r, s: e.s, handler: mux, cuts: map[string]armedCut{}, lastCutClass: map[string]string{}}
@@ -337,6 +340,13 @@ func (e *vsEnv) upload(c *vsClient, a *vsAttempt) {
 	}
 	if st != nil {
 		a.id, a.fileIDs = st.UploadID, st.FileIDs
+		want := ""
+		if e.app.ViewURLBase != "" {
+			want = e.app.ViewURLBase + url.QueryEscape(st.UploadID)
+		}
+		if st.ViewURL != want {
+			r.Fail("client-view", "view-url-wrong", "%s: upload %s answered with view URL %q, want %q", c.name, st.UploadID, st.ViewURL, want)
+		}
 	}
 	a.endStep, a.endTime, a.dayHi = r.Step(), time.Now(), dayOf(e.now())
 	e.fs.armClient(c.name, fsFault{})
@@ -779,7 +789,7 @@ func (e *vsEnv) genAttempt(faultsOn bool, force *vsFault) *vsAttempt {
 	if T.Intn(40, "collide") == 0 {
 		opts.collide = true
 	}
-	if force == nil && T.Intn(40, "long-line") == 0 {
+	if force == nil && T.Intn(120, "long-line") == 0 {
 		opts.longLine = true
 	}
 	if T.Intn(25, "wide-record") == 0 {
